@@ -1,4 +1,4 @@
-SPECIFICATION Spec
+SPECIFICATION SpecR
 CONSTANTS
   QBits = 6
   WrapBits = 20
@@ -19,14 +19,8 @@ CONSTANTS
   StartGrowth <- MCStartGrowth
   Limits <- MCNoLimits
   Thresholds <- MCVacuous
-  MaxOps = 4
+  MaxOps = 5
 CHECK_DEADLOCK FALSE
-VIEW view
-INVARIANT TypeOK
-INVARIANT LiqSum
-INVARIANT TickSums
-INVARIANT Solvent
-PROPERTY SwapBoundsProp
-PROPERTY StepsOKProp
-PROPERTY SplitExactProp
-PROPERTY OwnerSignedProp
+VIEW viewL
+INVARIANT FeeUpper
+INVARIANT FeeLower
